@@ -25,10 +25,11 @@ EXPLANATION = (
   " (FIN-line) the cue line setting is the region's top edge / bottom edge / centre for displayAlign before / after / center, with the matching alignment (grid evaluation);"
   " (INDEP) independent tag conditions are not chained with elif;"
   " (TAINT) the escaping function also replaces '>' (an unescaped --> would be read as a timing line);"
+  ' (RAISE-interval) the cue serialisers refuse end <= begin, so add_isd passes an interval on only after a test on the rounded end and begin has excluded an interval that is empty at millisecond resolution (an interval shorter than the time-code resolution is skipped, never an exception);'
 )
 RULE_TEXT = "per tag pair, per tag append, per supported value, per text flow"
 UNDECIDED = ["cue-setting values (line, align) vs the computed position and alignment", "no empty line / no '-->' inside an SRT payload (SRT has no escaping mechanism)",
-             "begin < end for sub-millisecond intervals (to_string raises ValueError: observation O1)", "non-overlap and ordering of cues as values"]
+             "non-overlap and ordering of cues as values"]
 TRUSTED = ["tag constants of srt/style.py and vtt/style.py"]
 
 
@@ -431,4 +432,6 @@ def run(ctx):
   ctx.floor("ORD-preorder", "recursive filter steps that read the parent and write the element", npre, 1)
   nm = shape.check_memo_single_producer(ctx, ctx.ix.cls("ttconv.vtt.writer:VttContext"))
   ctx.floor("MEMO", "memo dictionaries of the WebVTT context", nm, 1)
+  for prod, ref in (("ttconv.srt.writer:SrtContext.add_isd", "ttconv.srt.paragraph:SrtParagraph.to_string"), ("ttconv.vtt.writer:VttContext.add_isd", "ttconv.vtt.cue:VttCue.to_string")):
+    shape.check_interval_resolution(ctx, ctx.ix.func(prod), ctx.ix.func(ref))
   common.check_history_independence(ctx, common.WRITERS + common.ISD_FILTERS)
